@@ -57,7 +57,7 @@ def mk(units, trusted, assumptions, explanation):
 PROPS = {
     "C01": mk(["u1", "u2", "glue"], T_SIGNAL + T_U2, [R1, R2, R3, A1, A5], "conservation + ownership contracts on every critical section; effect log of hand-offs"),
     "C02": mk(["u1"], T_SIGNAL, [R1, R2, R3, A1, A5], "every send-type section appends at the tail of the logical order, every receive-type section takes its head"),
-    "C03": mk(["u1"], T_SIGNAL, [R1, R2, R3, A1, A5], "every entry point ensures one atomic reference step per critical section; lock invariant at every guard death"),
+    "C03": mk(["u1", "u2", "glue"], T_SIGNAL + T_U2, [R1, R2, R3, A1, A5], "every entry point ensures one atomic reference step per critical section; lock invariant at every guard death"),
     "C04": mk(["u1", "u2", "glue"], T_SIGNAL + T_U2 + ["Kani 0.68 / CBMC 6.11 as shipped; one ignored CBMC check (zero-byte memset of core::mem::zeroed::<ZST>) listed under kani_tool_artefacts_ignored"],
               [R1, R2, R3, A1, A5, "universal quantifier over the message type T is covered by size/alignment classes (ZST, over-aligned ZST, 1,2,3,4,8 bytes, padded, 16, 24 bytes, padded large), each over its full value domain",
                "memory ordering is decided only at the level of the annotations: U2 proves on the real text that the payload is moved before the final state is published, that every publishing store / compare_exchange has ordering >= Release, that the waiter is woken only after the publication, and that every path on which a waiter returns a final state has executed an acquire load or fence after observing it; that these annotations yield the happens-before edge is the C11 memory model and is assumed (Verus treats atomics as SC, Kani has no threads)"],
@@ -74,6 +74,6 @@ PROPS = {
     "C16": mk(["u1", "u2", "glue"], T_SIGNAL + T_U2, [R1, R2, R3, A1, A5], "poll contracts: Pending implies current waker registered, waker replaced only under the lock, re-arm only with a fresh signal, value only on evidence of delivery, sticky stream end"),
     "C17": mk(["u2", "u1"], T_U2 + ["T1 Mutex::lock/try_lock (lock_api wrapper over RawMutexLock) in U1: try_lock takes no blocking token"], [A1, A5, "mutual exclusion under the C11 memory model is NOT proved: the contracts are sequential; L-MUTEX derives exclusion over the contracts assuming atomic CAS and sequential consistency", "progress (a blocking acquisition succeeds once the holder leaves) is excluded (liveness)"],
               "contracts on try_lock / lock / lock_no_inline / unlock / spin_cond on the real text + interleaving lemma over those contracts (reduced claim)"),
-    "C18": mk(["u1"], T_SIGNAL + T_TIME, [R1, R2, R3, A1, A2, A3, A4, A5], "each entry point equals a deterministic reference function; panic- and overflow-freedom"),
+    "C18": mk(["u1", "u2", "glue"], T_SIGNAL + T_TIME + T_U2, [R1, R2, R3, A1, A2, A3, A4, A5], "each entry point equals a deterministic reference function; panic- and overflow-freedom"),
     "C19": mk(["u1"], T_SIGNAL, [R1, R2, R3, A1, A2, A5], "full functional post-condition of drain_into including both loops"),
 }
